@@ -200,7 +200,7 @@ def gen_cases(tier, seed):
     for (m, n) in ((2, 3), (3, 3)):
         for blk in _blocks(sorted(set(orbit_reps(m, n, rows=True))), 8):
             cases.append(dict(kind="special", what="big-norm-eps", m=m, n=n, idx=blk))
-    for k in range(4):
+    for k in range(8):
         cases.append(dict(kind="special", what="wide-zero-columns", k=k))
     cases.append(dict(kind="special", what="square-to-wide"))
     for k in range(4):
@@ -588,6 +588,10 @@ def run_special(case, ctx):
         # numerical rank is unambiguous)
         k = case["k"]
         D = [np.diag([1.0, 0.5, 0.02]), np.diag([1.0, 0.3, 0.01])][k % 2]
+        if k >= 4:  # CONFLICTING rows (the diagonal ones are orthogonal: projections are trivial there), at scale 1 and at scale 5e-3
+            D = [np.array([[1.0, 0.2, 0.0], [-1.0, 0.3, 0.1], [0.2, -1.0, 0.5]]), np.array([[2.0, -1.0, 0.5], [-1.5, 1.0, 0.25], [0.5, 0.5, -1.0]])][k % 2]
+            if k >= 6:
+                D = D * (5e-3 / A.sigma_max(D))
         J = np.hstack([D, np.zeros((3, 3))])
         if k >= 2:  # mix the coordinates with a rotation so that the rows are dense
             Q = _givens(6, 0, 3, 0.7) @ _givens(6, 1, 4, 1.1) @ _givens(6, 2, 5, 0.4) @ _givens(6, 0, 1, 0.3)
@@ -609,6 +613,12 @@ def run_special(case, ctx):
                 ctx.compare(f"special:wide-zero-columns:{name}", err, tol * s, f"zero-column:{name}:wide",
                             lambda: f"{name} on a 3x6 matrix (singular values {np.linalg.svd(J, compute_uv=False).round(4).tolist()}) with {extra} zero columns appended: "
                                     f"old coordinates {y[:6].tolist()} vs {x.tolist()}, new coordinates max |.|={float(np.abs(y[6:]).max()):.3g}")
+                if extra == 5000:  # the zero columns IN FRONT: the informative columns are the last ones (blockwise code must not drop a tail)
+                    y = call(agg, np.hstack([np.zeros((3, extra)), J]))
+                    if y is not None:
+                        err = max(float(np.abs(y[-6:] - x).max()), float(np.abs(y[:-6]).max()))
+                        ctx.compare(f"special:wide-zero-columns:{name}", err, tol * s, f"zero-column:{name}:wide-front",
+                                    lambda: f"{name} on a 3x6 matrix with {extra} zero columns IN FRONT: old coordinates {y[-6:].tolist()} vs {x.tolist()}")
             ctx.nontrivial += 1
             ctx.outcomes.add(f"wzc:{name}:" + digest(np.round(x, 6).tolist()))
     elif what == "backward-layout":
